@@ -37,7 +37,7 @@ var c15fillers = []struct {
 	lines int
 }{
 	{"plain text\n", 1}, {"<p>\n  two\n</p>\n", 3}, {"<% let a = 1 %>\n", 1}, {"<%= \"x\" %> and <%= 2 %>\n", 1}, {"<%# a comment %>\n", 1},
-	{"<%= `multi\nline\nstring` %>\n", 3}, {"<% let s2 = \"a\nb\" %>\n", 2}, {"<%\n  let b = 2\n%>\n", 3}, {"<%= if (true) { %>\n  yes\n<% } %>\n", 3},
+	{"<%= `multi\nline\nstring` %>\n", 3}, {"<% let s2 = \"a\nb\" %>\n", 2}, {"<% let s3 = \"say \\\"hi\\\"\nto \\\"all\\\"\n\" %>\n", 3}, {"<%\n  let b = 2\n%>\n", 3}, {"<%= if (true) { %>\n  yes\n<% } %>\n", 3},
 	{"<%= for (q) in [1,2] { %>\n<%= q %>\n<% } %>\n", 3}, {"\n\n", 2}, {"<% # line comment\n let c = 3 %>\n", 2}, {"\\<%= not a tag %>\n", 1},
 }
 
